@@ -41,24 +41,29 @@ MANIFEST = {
              "observations carry no fidelity term. About the executable exact-rational model of series/_hp.py: its system matrix equals F "
              "entrywise, every answer it gives (exactly re-checked F x = b) is therefore the unique constrained minimiser (end-to-end "
              "theorem model_trend_is_the_minimiser), trend+gap=data where data exist, log=True is exp . hpf . log, the requested span only "
-             "slices the result computed on the encompassing span. lonf: the dual-form KKT conditions imply optimality and uniqueness, "
-             "and any dual-feasible nu bounds the sub-optimality of y - D'nu by its duality gap. The model is tied to the code on every "
-             "run by staged differential correspondence (encompassing span/constraint preparation and the system matrix exactly; "
-             "trend/gap at 1e-6 relative on instances with numpy-measured cond <= 1e8) and by exact-arithmetic certificates evaluated on "
-             "the implementation's own output (normal-equation residual; for lonf the dual certificate), plus an independent oracle "
-             "(perturbation test of the exact objective, least-squares reference, constraints, straight lines, spans, variants, log). "
-             "PARTIAL: lonf is certificate validation only (daqp's active-set iteration is not modelled); floating point and LAPACK are "
-             "outside the theorems; solvability of F (as opposed to uniqueness) is not proved."),
+             "slices the result computed on the encompassing span. EXISTENCE: lam K'K + W is definite, the bordered matrix F is "
+             "non-singular (IsUnit det) for lam > 0, two observations and independent constraints (distinct levels, distinct changes, no "
+             "level-changes-level cycle: full row rank proved), so the unique constrained minimiser exists; the same for the model's own "
+             "matrix over Q (model_sysMatrix_nonsingular). lonf: the dual-form KKT conditions imply optimality and uniqueness, also with "
+             "missing observations (fidelity weights, l1w_gap_bound) and instantiated on lonf's own first/second-order matrices (entry "
+             "formulas proved, dmat stream exact); any dual-feasible nu bounds the sub-optimality by its duality gap. The model is tied to "
+             "the code on every run by staged differential correspondence (encompassing span/constraint preparation, the system matrix and "
+             "the lonf difference matrices exactly; trend/gap at 1e-6 relative on instances with numpy-measured cond <= 1e8) and by "
+             "exact-arithmetic certificates evaluated on the implementation's own output (normal-equation residual; for lonf the dual "
+             "certificate), plus an independent oracle (perturbation test of the exact objective, least-squares reference, constraints, "
+             "straight lines, spans, variants, log, missing observations). PARTIAL: lonf is certificate validation only (daqp's active-set "
+             "iteration is not modelled); floating point and LAPACK are outside the theorems; completeness of QMat.solve (that Gauss-Jordan "
+             "finds the solution which is proved to exist) is not proved - the model re-checks every answer exactly instead."),
     "design": "7/C14",
     "note": ("Tolerances apply only to generator-controlled instances (integer data, n <= 46, cond(F) <= 1e8 measured with numpy). "
              "lonf part is partial: optimality is validated per output through the proved duality-gap bound, not derived from daqp. "
-             "lonf on data with missing values returns an empty series and is outside the checked domain."),
+             "lonf with missing observations is checked (30 % of the lonf cases) since the fix C14-lonf-missing-observations."),
     "technique": "Lean 4 proof of schematic optimality theorems + exact rational model + differential correspondence + certificate validation",
 }
 ASSUMPTIONS = [
     "QMat.solve (Gauss-Jordan over Rat) is not proved correct; every model answer carries the exact re-check F x = b, which is the hypothesis of the theorems",
     "tolerance comparisons only on instances with numpy-measured cond(F) <= 1e8; floating-point rounding and LAPACK are not modelled",
-    "lonf: only the returned (trend, gap) is validated (dual certificate in exact arithmetic); daqp itself is not modelled; fully observed data only",
+    "lonf: only the returned (trend, gap) is validated (dual certificate in exact arithmetic, also with missing observations); daqp itself is not modelled",
     "log=True: numpy log/exp are treated as abstract mutually inverse functions (the model is run on the logged data)",
     "periods of one frequency are integer serials in the model (frequency mixing is C09's subject)",
 ]
@@ -473,6 +478,13 @@ def gen_lonf_case(rng):
     lam = rng.choice(["1/2", 1, 3, 5, 20, 100])
     case = {"kind": "lonf", "freq": f, "order": order, "lam": lam, "dstart": BASE[f] + rng.randint(-20, 20), "data": data,
             "span": None, "data_kind": kind}
+    if rng.chance(0.3) and n >= 5:
+        # interior missing observations (no fidelity term there)
+        for col in data:
+            idx = [i for i in range(1, n - 1) if rng.chance(0.15)] or [rng.randint(1, n - 2)]
+            for i in idx:
+                col[i] = None
+        case["missing"] = True
     if rng.chance(0.25) and n >= order + 4:
         a = rng.randint(0, n - order - 2)
         case["span"] = [case["dstart"] + a, case["dstart"] + rng.randint(a + order + 1, n - 1)]
@@ -709,7 +721,7 @@ def diff_matrix(order, n):
 
 
 def l1_objective_exact(order, lam, y, tau):
-    s = sum(((a - b) ** 2 for a, b in zip(y, tau)), Fr(0)) / 2
+    s = sum(((a - b) ** 2 for a, b in zip(y, tau) if a is not None), Fr(0)) / 2
     p = Fr(0)
     for i in range(len(tau) - order):
         z = (tau[i] - tau[i + 1]) if order == 1 else (tau[i] - 2 * tau[i + 1] + tau[i + 2])
@@ -748,18 +760,29 @@ def run_lonf_case(ctx: Ctx, case, rng, collect):
     for k in range(nv):
         y, tt, gg = Y[:, k], T[:, k], G[:, k]
         sc = scale_of(y)
-        if np.isnan(tt).any() or np.isnan(gg).any():
-            ctx.fail("lonf-missing-output", case, f"variant {k}: NaN in the output for fully observed data")
+        obs = ~np.isnan(y)
+        if obs.all():
+            if np.isnan(tt).any() or np.isnan(gg).any():
+                ctx.fail("lonf-missing-output", case, f"variant {k}: NaN in the output for fully observed data")
+                continue
+        elif np.isnan(tt).any() or (np.isnan(gg) != ~obs).any():
+            ctx.fail("lonf-missing-observations", case, f"variant {k}: data with interior missing values: trend has {int(np.isnan(tt).sum())} NaN of {n}, "
+                     f"gap is defined at {int((~np.isnan(gg)).sum())} of the {int(obs.sum())} observed periods: trend+gap does not equal the data where data exist")
             continue
-        if np.max(np.abs(tt + gg - y)) > 1e-12 * sc:
-            ctx.fail("lonf-trend-plus-gap", case, f"variant {k}: trend+gap differs from the data by {np.max(np.abs(tt + gg - y)):.3e}")
-        # perturbation test of the l1 objective (exact rationals)
+        if np.max(np.abs(tt + gg - y)[obs]) > 1e-12 * sc:
+            ctx.fail("lonf-trend-plus-gap", case, f"variant {k}: trend+gap differs from the data by {np.max(np.abs(tt + gg - y)[obs]):.3e}")
+        # perturbation test of the l1 objective (exact rationals; no fidelity term at missing observations)
         lamq = Fr(str(case["lam"]))
-        yq, tq = [Fr(float(v)) for v in y], [Fr(float(v)) for v in tt]
+        yq, tq = [Fr(float(v)) if v == v else None for v in y], [Fr(float(v)) for v in tt]
         P0 = l1_objective_exact(order, lamq, yq, tq)
-        tolP = Fr(1e-7 * (1.0 + float(np.sum(y * y)) + lam * n * sc))
-        ref = l1_reference(order, lam, y)
-        dirs = [("to-reference", [Fr(float(v)) for v in (ref - tt)])]
+        tolP = Fr(1e-7 * (1.0 + float(np.nansum(y * y)) + lam * n * sc))
+        dirs = []
+        if obs.all():
+            ref = l1_reference(order, lam, y)
+            dirs.append(("to-reference", [Fr(float(v)) for v in (ref - tt)]))
+        else:
+            for jm in [int(i) for i in np.where(~obs)[0]][:6]:
+                dirs.append(("missing-period", [Fr(1) if i == jm else Fr(0) for i in range(n)]))
         for _ in range(3):
             dirs.append(("random", [Fr(rng.randint(-3, 3)) for _ in range(n)]))
         a, b = rng.randint(-3, 3), rng.randint(-3, 3)
@@ -777,13 +800,13 @@ def run_lonf_case(ctx: Ctx, case, rng, collect):
                     break
             if failed:
                 break
-        if case.get("data_kind") == "line" and np.max(np.abs(tt - y)) > 1e-6 * sc:
-            ctx.fail("lonf-straight-line", case, f"variant {k}: affine/constant data changed by {np.max(np.abs(tt - y)):.3e}")
+        if case.get("data_kind") == "line" and np.max(np.abs(tt - y)[obs]) > 1e-6 * sc:
+            ctx.fail("lonf-straight-line", case, f"variant {k}: affine/constant data changed by {np.max(np.abs(tt - y)[obs]):.3e}")
         if collect is not None:
             if k == 0:
                 collect.append(("dmat", f"dmat {order} {n}", mat_text(np.asarray(L1MOD._MATRIX_SETUP_DISPATCH[order](n)[1], dtype=float)), case))
             words = [str(order), str(case["lam"]), str(n)] + [rat_of_float(v) for v in y] + [rat_of_float(v) for v in tt] + [rat_of_float(v) for v in gg]
-            collect.append(("l1", "l1 " + " ".join(words), {"scale": sc, "lam": lam, "n": n, "sumsq": float(np.sum(y * y))}, case))
+            collect.append(("l1", "l1 " + " ".join(words), {"scale": sc, "lam": lam, "n": n, "sumsq": float(np.nansum(y * y))}, case))
         z = diff_matrix(order, n) @ tt
         nk = int((np.abs(z) > 1e-7 * sc).sum())
         ctx.count(f"lonf:kinks={'0' if nk == 0 else '1-3' if nk <= 3 else '4+'}")
@@ -792,6 +815,7 @@ def run_lonf_case(ctx: Ctx, case, rng, collect):
     ctx.count(f"lonf:order={order}")
     ctx.count(f"lonf:lam={case['lam']}")
     ctx.count(f"lonf:variants={Y.shape[1]}")
+    ctx.count(f"lonf:missing={bool(np.isnan(Y).any())}")
 
 
 # ---------------------------------------------------------------------------------------
